@@ -14,6 +14,9 @@ EXTERNAL_NAMES = {"sigsetjmp", "__sigsetjmp", "siglongjmp", "_longjmp", "__longj
                   "pthread_mutex_destroy", "vsnprintf", "memset", "memcpy", "strlen", "malloc", "free", "realloc", "fopen", "fputs", "fclose", "fflush", "time", "localtime", "strftime"}
 
 
+DECLINE = ("decline",)      # returned by a stub that does not answer for this receiver (see the call branch)
+
+
 class Unknown(Exception):
     pass
 
@@ -715,9 +718,15 @@ class Evaluator:
                         except Unknown:
                             self.last_arg_keys.append(None)
                 r = hook(self, *args) if getattr(hook, "wants_ev", False) else hook(*args)
-                if r is None:
-                    raise Unknown(nm)
-                return r
+                if r is DECLINE and not f.args(n):
+                    # the stub answers only for some receivers (a string temporary, say) and leaves the others to the real
+                    # function: the call is treated as if it had no stub (parameterless calls only: nothing is evaluated twice)
+                    self.trace.pop()
+                    self.argkeys.pop()
+                else:
+                    if r is None or r is DECLINE:
+                        raise Unknown(nm)
+                    return r
             inl = getattr(self, "inline", None) or set()
             auto = False
             if n.get("callee") and n["callee"].get("dispatch") == "direct" and n["callee"]["mn"] in self.prog.functions and getattr(self, "inline_static", True):
